@@ -700,6 +700,8 @@ class DataboxWorld(World):
         args = {"box": b, "path": self._gen_path(rng), "names": names, "span": span,
                 "description_row": rng.random() < 0.5, "round": rng.choice([12, 12, None, 2, 6]),
                 "nan_str": rng.choice(["", "", "nan", "NaN"]), "plan": self._gen_fault_plan(flt)}
+        if rng.random() < 0.2:
+            args["pathlike"] = True
         if rng.random() < 0.15:
             # another column delimiter, given to the writer and later to the reader of the same file
             args["delimiter"] = rng.choice([";", "\t", "|"])
@@ -724,6 +726,7 @@ class DataboxWorld(World):
         dr = rec.description_row if rec != "torn" else rng.random() < 0.5
         return {"op": "import", "out": [self._name()], "args": {"path": path, "description_row": dr,
                                                                "start_period_only": rng.random() < 0.2,
+                                                               "pathlike": rng.random() < 0.2,
                                                                "plan": self._gen_fault_plan(flt, reading=True)}}
 
     def _gen_slate(self, actor, rng, val, flt):
@@ -1634,7 +1637,8 @@ class DataboxWorld(World):
                 self.probes["export_over_residue"] += 1
         kw = self._export_kwargs(a)
         pred = self._export_predicate(rec, a)
-        status, r, fired = self._run("export", pred, lambda: box.to_csv_file(path, **kw), plan=plan)
+        target = __import__("pathlib").Path(path) if a.get("pathlike") else path     # a str or an os.PathLike: the same file
+        status, r, fired = self._run("export", pred, lambda: box.to_csv_file(target, **kw), plan=plan)
         faulted = any(k not in ("short_write", "short_read", "eintr") for k in fired)
         # no other path may change, whatever happened
         for p, b in before.items():
@@ -1767,7 +1771,8 @@ class DataboxWorld(World):
             kw["start_period_only"] = True
             pred = ",".join(x for x in (pred, "start_period_only") if x)
             self.probes["import_start_period_only"] += 1
-        status, r, fired = self._run("import", pred, lambda: ir.Databox.from_csv_file(path, **kw), plan=plan)
+        source = __import__("pathlib").Path(path) if a.get("pathlike") else path
+        status, r, fired = self._run("import", pred, lambda: ir.Databox.from_csv_file(source, **kw), plan=plan)
         faulted = any(k not in ("short_write", "short_read", "eintr") for k in fired)
         self.probes["import_opens_total"] += self.fs.totals["open"] - opens_before
         self._check_heap("import", pred)
